@@ -50,10 +50,28 @@ def lean_hash():
     return h.hexdigest()
 
 
-def lean_build():
-    """(re)build library, audit and driver from the committed sources; no-op when up to date."""
+def module_closure(mods):
+    """all project modules imported (transitively) by `mods`, as file paths."""
+    seen, todo = set(), list(mods)
+    while todo:
+        m = todo.pop()
+        if m in seen or not m.startswith("DswModel"):
+            continue
+        seen.add(m)
+        path = os.path.join(LEAN, m.replace(".", "/") + ".lean")
+        if not os.path.exists(path):
+            raise Infra("missing module " + m)
+        for line in open(path):
+            mm = re.match(r"\s*import\s+(\S+)", line)
+            if mm:
+                todo.append(mm.group(1))
+    return sorted(os.path.join(LEAN, m.replace(".", "/") + ".lean") for m in seen)
+
+
+def lean_build(mods=()):
+    """(re)build the driver and the property's modules from the sources; no-op when up to date."""
     t0 = time.time()
-    p = subprocess.run(["lake", "build", "DswModel", "dswdriver"], cwd=LEAN, capture_output=True, text=True)
+    p = subprocess.run(["lake", "build", "dswdriver"] + list(mods), cwd=LEAN, capture_output=True, text=True)
     if p.returncode != 0:
         raise Infra("lake build failed:\n" + (p.stdout + p.stderr)[-4000:])
     return time.time() - t0
@@ -69,7 +87,8 @@ def lean_audit(theorems):
     cpath = os.path.join(cache_dir, "audit-" + key + ".json")
     if os.path.exists(cpath):
         return json.load(open(cpath))
-    for p in lean_sources():
+    mods = sorted({t.split(":")[0] for t in theorems})
+    for p in module_closure(mods) + [os.path.join(LEAN, "Driver.lean")]:
         body = _strip_comments(open(p).read())
         for i, line in enumerate(body.split("\n")):
             if FORBIDDEN.search(line):
